@@ -347,6 +347,9 @@ func (p *Proxy) handleCONNECT(r responder.Responder, proxyReq *http.Request) err
 				slog.Debug("Client closed connection in CONNECT tunnel", "host", proxyReq.Host)
 			} else {
 				slog.Error("Error reading request from client in CONNECT tunnel", "host", proxyReq.Host, "error", err)
+				// Answer a request that cannot be parsed before closing the tunnel, as net/http does
+				// on a plain connection, instead of just dropping the client.
+				responder.NewRawHTTPResponder(tlsConn).WriteError("400 Bad Request", http.StatusBadRequest)
 			}
 			break
 		}
